@@ -59,7 +59,11 @@ macro_rules! sym_logic {
             fn assume(p: Id) { with(|a| a.assumes.push(p)); }
             fn ensure(name: &str, p: Id) { with(|a| a.ensures.push((name.to_string(), p))); }
             fn output(name: &str, v: &Self) { with(|a| a.outputs.push((name.to_string(), v.0))); }
-            fn identical(name: &str, x: &Self, y: &Self) { with(|a| a.identical.push((name.to_string(), x.0, y.0))); }
+            fn identical(name: &str, x: &Self, y: &Self) {
+                // same operations up to the order of the operands of + and * (bit-identical in IEEE arithmetic): recorded as the same term
+                let yy = if comm_equal(x.0, y.0) { x.0 } else { y.0 };
+                with(|a| a.identical.push((name.to_string(), x.0, yy)));
+            }
             fn tol(real: f64, float: f64) -> Self { $T(mk(Node::Tol(real.to_bits(), float.to_bits()))) }
             fn k(v: f64) -> Self { $T::c(v) }
             fn is_symbolic() -> bool { true }
